@@ -79,7 +79,9 @@ def run(ctx):
     hist.append(links.long_history(ctx, rnd, "h-long", 1100 if q else 3000))
     import rv.api as api_
     for k, hc in enumerate([api_.m.MultiCtl, api_.m.Amplifier, api_.m.MetaModule, api_.m.Sampler]):     # one source with 20 destinations
-        hist.append(links.hub_history(ctx, rnd, "h-hub%d" % k, hc, fan=20 if k else 22))        # scale in time: a thousand freed slots, then save + load
+        hist.append(links.hub_history(ctx, rnd, "h-hub%d" % k, hc, fan=20 if k else 22))
+    hist.append(links.hub_history(ctx, rnd, "h-hub-260", api_.m.Amplifier, fan=260))       # out slots 255, 256 ...
+    hist.append(links.output_source_history(ctx, rnd, "h-output-source"))        # scale in time: a thousand freed slots, then save + load
     for tr in hist:
         for i, e in enumerate(tr["events"]):
             if e["op"] == "saveload":
